@@ -472,7 +472,7 @@ func TestC18(t *testing.T) {
 			nfp := hx.Pick(8, 100)
 			for i := 0; i < nfp; i++ {
 				var vals [][5]byte
-				x := uint32(i*2654435761 + 977)
+				x := uint32(uint64(i)*2654435761 + 977)
 				for j := 0; j < 3+i%5; j++ {
 					x ^= x << 13
 					x ^= x >> 17
